@@ -86,6 +86,19 @@ def answer (w : W) (kind : String) (r : Rel) (arg : String) : String :=
     join (parents.map (fun p => s!"{labelOf w p.id}:count={(children db r p).length},sum={sumX (children db r p)}"))
   else if kind == "aggf" then
     join (parents.map (fun p => s!"{labelOf w p.id}:count={((children db r p).filter gt).length}"))
+  else if kind == "kidsaggf" || kind == "agg2f" then
+    -- arg = "a,b": related documents with x > a, and those with a < x < b
+    let ab := arg.splitOn ","
+    let a : Int := (ab.headD "0").toInt?.getD 0
+    let b : Int := ((ab.drop 1).headD "0").toInt?.getD 0
+    let wide (d : Doc) : Bool := match d.x with | some x => x > a | none => false
+    let narrow (d : Doc) : Bool := match d.x with | some x => x > a && x < b | none => false
+    if kind == "kidsaggf" then
+      join (parents.map (fun p =>
+        s!"{labelOf w p.id}:{kidsStr w ((children db r p).filter wide)}:count={((children db r p).filter narrow).length}"))
+    else
+      join (parents.map (fun p =>
+        s!"{labelOf w p.id}:c1={((children db r p).filter wide).length},c2={((children db r p).filter narrow).length}"))
   else if kind == "topcount" then toString (childrenWith db r gt).length
   else if kind == "topsum" then toString (sumX (childrenWith db r (fun p => p.name == arg)))
   else if kind == "corder" then
